@@ -95,7 +95,8 @@ Definition phase_inv (s : state) : Prop :=
   | RLoad n => new_ok s n /\ (forall a, ~ In n (fdh s a))
   | RCb n => new_ok s n /\ fate_of s n <> 1 /\ (forall a, ~ In n (fdh s a))
   | RListen n todo => new_ok s n /\ incl todo (addrs_of s n) /\ fate_of s n <> 1 /\
-       (forall a, In a (addrs_of s n) -> ~ In a todo -> In n (fdh s a))
+       (forall a, In a (addrs_of s n) -> ~ In a todo -> In n (fdh s a)) /\
+       NoDup todo /\ (forall a, In a todo -> ~ In n (fdh s a))
   | RSpawn n todo => new_ok s n /\ incl todo (addrs_of s n) /\ fate_of s n = 0 /\
        (forall a, In a (addrs_of s n) -> In n (fdh s a)) /\
        (forall a, In a (addrs_of s n) -> ~ In a todo -> In n (acc s a))
@@ -130,7 +131,8 @@ Record Inv (s : state) : Prop := {
              (forall i, accepted_by (cst c) = Some i ->
                         cborn c <= i /\ i < length (cfgs s) /\ In (caddr c) (addrs_of s i)) /\
              (cst c = CQueued -> fdh s (caddr c) <> []);
-  i_fd : forall a i, In i (fdh s a) -> holder_ok s a i
+  i_fd : forall a i, In i (fdh s a) -> holder_ok s a i;
+  i_nd : forall a, NoDup (fdh s a)
 }.
 
 Lemma inv_init a0 blocked : nodupb a0 = true -> Inv (init a0 blocked).
@@ -147,6 +149,7 @@ Proof.
   - intros a i Hi. unfold holder_ok, addrs_of. simpl.
     destruct (mem a a0) eqn:E; simpl in Hi; [|contradiction].
     destruct Hi as [<-|[]]. left. split; [reflexivity | apply mem_In; exact E].
+  - intros a. destruct (mem a a0); repeat constructor. intros [].
 Qed.
 
 Ltac dmatch H :=
@@ -211,7 +214,7 @@ Lemma inv_ext s s' :
   Inv s -> cur s' = cur s -> cfgs s' = cfgs s -> rst s' = rst s -> fdh s' = fdh s -> acc s' = acc s ->
   conns s' = conns s -> Inv s'.
 Proof.
-  intros [H1 H2 H3 H4 H5 H6 H7] E1 E2 E3 E4 E5 E6.
+  intros [H1 H2 H3 H4 H5 H6 H7 H8] E1 E2 E3 E4 E5 E6.
   constructor; unfold phase_inv, old_live, is_new, holder_ok, pending, addrs_of, fate_of, new_ok in *;
     rewrite ?E1, ?E2, ?E3, ?E4, ?E5, ?E6; assumption.
 Qed.
@@ -223,7 +226,7 @@ Lemma inv_stop_old s n a t s' :
   fdh s' = fdh (stop_old s a) -> acc s' = acc (stop_old s a) -> conns s' = conns (stop_old s a) ->
   Inv s'.
 Proof.
-  intros [Hcur Hnd Hph Hold Hacc Hconn Hfd] E Ec Ecf Er Ef Ea Eco.
+  intros [Hcur Hnd Hph Hold Hacc Hconn Hfd Hndf] E Ec Ecf Er Ef Ea Eco.
   destruct (stop_old_fields s a) as (_ & _ & _ & _ & _ & _ & Ff & Fa & Fc).
   rewrite Ff in Ef. rewrite Fa in Ea. rewrite Fc in Eco. clear Ff Fa Fc.
   unfold phase_inv, old_live, is_new in *. rewrite E in *.
@@ -278,11 +281,14 @@ Proof.
     exfalso. apply Hia; reflexivity.
   - exact Hconn'.
   - intros b i Hi. apply Hfd' in Hi as (Hi & _). specialize (Hfd b i Hi). rewrite E in Hfd. exact Hfd.
+  - intros b. destruct (Nat.eq_dec b a) as [->|Hne].
+    + rewrite upd_same. unfold f, rem. apply NoDup_filter. apply Hndf.
+    + rewrite upd_other by exact Hne. apply Hndf.
 Qed.
 
 Lemma inv_step s l s' : Inv s -> step s l = Some s' -> Inv s'.
 Proof.
-  intros Hinv H. pose proof Hinv as [Hcur Hnd Hph Hold Hacc Hconn Hfd].
+  intros Hinv H. pose proof Hinv as [Hcur Hnd Hph Hold Hacc Hconn Hfd Hndf].
   destruct l; unfold step in H.
   - (* LCall *)
     dmatch H. injection H as <-.
@@ -306,6 +312,7 @@ Proof.
       rewrite Hadd by exact Hb. repeat split; try lia; assumption.
     + intros a i Hi. destruct (Hfd a i Hi) as [(-> & Ha)|(Hc & _)]; [|discriminate].
       left. split; [reflexivity|]. rewrite Hadd by exact Hcur. exact Ha.
+    + exact Hndf.
   - (* LLoadFail *)
     dmatch H. injection H as <-.
     unfold phase_inv, old_live, is_new, holder_ok, pending in *. rewrite E in *.
@@ -321,16 +328,20 @@ Proof.
   - (* LDup *)
     dmatch H. injection H as <-. rename n0 into a.
     unfold phase_inv, old_live, is_new, holder_ok, pending in *. rewrite E in *.
-    destruct Hph as (Hn & Hincl & Hfate & Hfdn).
+    destruct Hph as (Hn & Hincl & Hfate & Hfdn & Hndt & Hnot).
+    inversion Hndt as [|x0 y0 Hnotin Hndl]; subst x0 y0.
     assert (Hsup : forall x b, In x (fdh s b) -> In x (upd (fdh s) a (n :: fdh s a) b)).
     { intros x b Hx. destruct (Nat.eq_dec b a) as [->|Hne].
       - rewrite upd_same. right. exact Hx.
       - rewrite upd_other by exact Hne. exact Hx. }
     constructor; simpl; unfold phase_inv, old_live, is_new, holder_ok, pending; simpl; auto.
     + split; [exact Hn|]. split; [intros x Hx; apply Hincl; right; exact Hx|]. split; [exact Hfate|].
-      intros b Hb Hnt. destruct (Nat.eq_dec b a) as [->|Hne].
-      * rewrite upd_same. left. reflexivity.
-      * apply Hsup. apply Hfdn; [exact Hb|]. intros [Hx|Hx]; [congruence|contradiction].
+      split; [|split; [exact Hndl|]].
+      * intros b Hb Hnt. destruct (Nat.eq_dec b a) as [->|Hne].
+        -- rewrite upd_same. left. reflexivity.
+        -- apply Hsup. apply Hfdn; [exact Hb|]. intros [Hx|Hx]; [congruence|contradiction].
+      * intros b Hb. assert (Hne : b <> a) by (intros ->; contradiction).
+        rewrite upd_other by exact Hne. apply Hnot. right. exact Hb.
     + intros b Hb _. destruct (Hold b Hb I) as (H1 & H2). split; [apply Hsup; exact H1|exact H2].
     + intros b i Hi. destruct (Hacc b i Hi) as (H1 & H2 & H3). split; [apply Hsup; exact H1|]. auto.
     + intros k c Hk. destruct (Hconn k c Hk) as (H1 & H2 & H3). split; [exact H1|]. split; [exact H2|].
@@ -341,21 +352,28 @@ Proof.
       * rewrite upd_same in Hi. destruct Hi as [<-|Hi]; [|apply Hfd; exact Hi].
         right. split; [reflexivity|]. apply Hincl. left. reflexivity.
       * rewrite upd_other in Hi by exact Hne. apply Hfd; exact Hi.
+    + intros b. destruct (Nat.eq_dec b a) as [->|Hne].
+      * rewrite upd_same. constructor; [apply Hnot; left; reflexivity | apply Hndf].
+      * rewrite upd_other by exact Hne. apply Hndf.
   - (* LBind *)
     dmatch H. injection H as <-. rename n0 into a.
     apply andb_true_iff in E1 as (E1 & Eext). apply andb_true_iff in E1 as (Enm & Enil).
     apply isnil_true in Enil.
     unfold phase_inv, old_live, is_new, holder_ok, pending in *. rewrite E in *.
-    destruct Hph as (Hn & Hincl & Hfate & Hfdn).
+    destruct Hph as (Hn & Hincl & Hfate & Hfdn & Hndt & Hnot).
+    inversion Hndt as [|x0 y0 Hnotin Hndl]; subst x0 y0.
     assert (Hsup : forall x b, In x (fdh s b) -> In x (upd (fdh s) a [n] b)).
     { intros x b Hx. destruct (Nat.eq_dec b a) as [->|Hne].
       - rewrite Enil in Hx. contradiction.
       - rewrite upd_other by exact Hne. exact Hx. }
     constructor; simpl; unfold phase_inv, old_live, is_new, holder_ok, pending; simpl; auto.
     + split; [exact Hn|]. split; [intros x Hx; apply Hincl; right; exact Hx|]. split; [exact Hfate|].
-      intros b Hb Hnt. destruct (Nat.eq_dec b a) as [->|Hne].
-      * rewrite upd_same. left. reflexivity.
-      * apply Hsup. apply Hfdn; [exact Hb|]. intros [Hx|Hx]; [congruence|contradiction].
+      split; [|split; [exact Hndl|]].
+      * intros b Hb Hnt. destruct (Nat.eq_dec b a) as [->|Hne].
+        -- rewrite upd_same. left. reflexivity.
+        -- apply Hsup. apply Hfdn; [exact Hb|]. intros [Hx|Hx]; [congruence|contradiction].
+      * intros b Hb. assert (Hne : b <> a) by (intros ->; contradiction).
+        rewrite upd_other by exact Hne. apply Hnot. right. exact Hb.
     + intros b Hb _. destruct (Hold b Hb I) as (H1 & H2). split; [apply Hsup; exact H1|exact H2].
     + intros b i Hi. destruct (Hacc b i Hi) as (H1 & H2 & H3). split; [apply Hsup; exact H1|]. auto.
     + intros k c Hk. destruct (Hconn k c Hk) as (H1 & H2 & H3). split; [exact H1|]. split; [exact H2|].
@@ -366,6 +384,9 @@ Proof.
       * rewrite upd_same in Hi. destruct Hi as [<-|[]].
         right. split; [reflexivity|]. apply Hincl. left. reflexivity.
       * rewrite upd_other in Hi by exact Hne. apply Hfd; exact Hi.
+    + intros b. destruct (Nat.eq_dec b a) as [->|Hne].
+      * rewrite upd_same. repeat constructor. intros [].
+      * rewrite upd_other by exact Hne. apply Hndf.
   - (* LListenFail: startServers closes what it opened for the new instance *)
     dmatch H. injection H as <-.
     unfold phase_inv, old_live, is_new, holder_ok, pending in *. rewrite E in *.
@@ -384,11 +405,12 @@ Proof.
       * rewrite Ec0. split; [exact H1|]. split; [exact H2|]. intros _. apply isnil_false. exact Enil.
     + intros a i Hi. apply rem_In in Hi as (Hi & Hne).
       destruct (Hfd a i Hi) as [Hc|(Hc & _)]; [left; exact Hc | congruence].
+    + intros a. unfold rem. apply NoDup_filter. apply Hndf.
   - (* LAdv *)
     dmatch H; injection H as <-.
     + (* RListen n [] -> RSpawn *)
       unfold phase_inv, old_live, is_new, holder_ok, pending in *. rewrite E in *.
-      destruct Hph as (Hn & Hincl & Hfate & Hfdn).
+      destruct Hph as (Hn & Hincl & Hfate & Hfdn & _ & _).
       constructor; simpl; unfold phase_inv, old_live, is_new, holder_ok, pending; simpl; auto.
       * split; [exact Hn|]. split; [apply incl_refl|]. split; [apply Nat.eqb_eq; exact E1|]. split.
         -- intros a Ha. apply Hfdn; [exact Ha|]. intros [].
@@ -494,7 +516,7 @@ Proof.
     unfold phase_inv, old_live, is_new, holder_ok, pending in *. rewrite E in *.
     constructor; simpl; unfold phase_inv, old_live, is_new, holder_ok, pending; simpl; auto.
     destruct Hph as (Hn & Hf & Hno). split; [exact Hn|]. split; [apply incl_refl|]. split; [exact Hf|].
-    intros a Ha Hna. contradiction.
+    split; [intros a Ha Hna; contradiction|]. split; [apply Hnd|]. intros a _. apply Hno.
   - (* LCbFail *)
     dmatch H. injection H as <-.
     unfold phase_inv, old_live, is_new, holder_ok, pending in *. rewrite E in *.
@@ -507,6 +529,10 @@ Proof.
     eapply (inv_stop_old s n a l);
       [exact Hinv | exact E | simpl; apply stop_old_fields | simpl; apply stop_old_fields
        | reflexivity | reflexivity | reflexivity | reflexivity].
+  - (* LFds *)
+    injection H as <-.
+    unfold phase_inv, old_live, is_new in *.
+    constructor; simpl; unfold phase_inv, old_live, is_new; simpl; auto; try exact Hfd.
 Qed.
 
 Lemma inv_run s ls s' : Inv s -> run s ls = Some s' -> Inv s'.
@@ -917,6 +943,8 @@ Proof.
     intros k c i Hk Hi. simpl in Hk. unfold fresh_ok. simpl. specialize (HF k c i Hk Hi). unfold fresh_ok in HF. rewrite E in HF. exact HF.
   - intros k c i Hk Hi. exact I.
   - intros k c i Hk Hi. exact I.
+  - (* LFds *)
+    apply Hsame; reflexivity.
 Qed.
 
 Lemma fresh_reachable s : reachable s -> Fresh s.
@@ -1345,6 +1373,9 @@ Proof.
     assert (Epn : pending s = Some n) by (unfold pending; rewrite E; reflexivity).
     unfold spec_step. rewrite Hp, Epn.
     apply (rel_stop_old s n a1 l p); simpl; auto. constructor; assumption.
+  - (* LFds: not a client-visible event *)
+    injection H as <-. simpl hist. rewrite scan_cons. fold p. unfold spec_step.
+    constructor; simpl; unfold pending; simpl; assumption.
 Qed.
 
 Lemma rel_init a0 blocked : Rel (init a0 blocked) (scan a0 (hist (init a0 blocked))).
@@ -1401,8 +1432,8 @@ Proof.
   { unfold natlist_eqb. induction a as [|u a IHa]; intros [|v b]; simpl; intros Hx; try discriminate; [reflexivity|].
     apply andb_true_iff in Hx as (X1 & X2). apply Nat.eqb_eq in X1. f_equal; [exact X1 | apply IHa; exact X2]. }
   assert (Hb : forall a b, bool_eqb a b = true -> a = b) by (intros [|] [|]; simpl; congruence).
-  destruct x as [a1 f1|r1|k1 a1 s1|k1 [[[m1 t1] c1]|]|a1 o1 d1|a1],
-           y as [a2 f2|r2|k2 a2 s2|k2 [[[m2 t2] c2]|]|a2 o2 d2|a2]; simpl in H1; try discriminate;
+  destruct x as [a1 f1|r1|k1 a1 s1|k1 [[[m1 t1] c1]|]|a1 o1 d1|a1|a1 n1],
+           y as [a2 f2|r2|k2 a2 s2|k2 [[[m2 t2] c2]|]|a2 o2 d2|a2|a2 n2]; simpl in H1; try discriminate;
   repeat match goal with
     | H : _ && _ = true |- _ => apply andb_true_iff in H as (? & ?)
     | H : Nat.eqb _ _ = true |- _ => apply Nat.eqb_eq in H; subst
@@ -1664,4 +1695,31 @@ Proof.
   - intros k c i Hk Hi. destruct (accepted_stable_step _ _ _ _ _ _ Hstep Hk Hi) as (c' & A & B & C & D & _).
     exists c'. auto.
   - apply (stop_phase_completes l _ n Hr1). reflexivity.
+Qed.
+
+(* when no reload is in progress the process holds exactly ONE descriptor of the listening socket
+   of every served address — the serving instance's — and none of any other address *)
+Lemma all_same_nodup (x : nat) l : NoDup l -> (forall y, In y l -> y = x) -> l = [] \/ l = [x].
+Proof.
+  intros Hn Hall. destruct l as [|y [|z r]]; [left; reflexivity | right | exfalso].
+  - rewrite (Hall y) by (left; reflexivity). reflexivity.
+  - inversion Hn as [|? ? Hnotin _]; subst. apply Hnotin.
+    rewrite (Hall y) by (left; reflexivity). rewrite (Hall z) by (right; left; reflexivity). left. reflexivity.
+Qed.
+
+Lemma one_descriptor_when_idle s a :
+  reachable s -> rst s = RIdle ->
+  fdh s a = if mem a (addrs_of s (cur s)) then [cur s] else [].
+Proof.
+  intros Hr Hi. assert (Hinv := inv_reachable _ Hr).
+  assert (Hall : forall y, In y (fdh s a) -> y = cur s /\ In a (addrs_of s (cur s))).
+  { intros y Hy. destruct (i_fd _ Hinv a y Hy) as [Hx|(Hx & _)]; [exact Hx|].
+    unfold pending in Hx. rewrite Hi in Hx. discriminate. }
+  destruct (all_same_nodup (cur s) (fdh s a) (i_nd _ Hinv a)) as [E|E].
+  - intros y Hy. apply Hall. exact Hy.
+  - rewrite E. destruct (mem a (addrs_of s (cur s))) eqn:Em; [|reflexivity].
+    apply mem_In in Em. destruct (i_old _ Hinv a Em) as (Hin & _); [unfold old_live; rewrite Hi; exact I|].
+    rewrite E in Hin. contradiction.
+  - rewrite E. destruct (mem a (addrs_of s (cur s))) eqn:Em; [reflexivity|].
+    apply mem_false in Em. exfalso. apply Em. apply (Hall (cur s)). rewrite E. left. reflexivity.
 Qed.
